@@ -73,14 +73,25 @@ type verifC18boundT struct {
 	width  int  // number of digit characters
 }
 
-func verifC18bound(tag string, neg bool, tens int) (b verifC18boundT) {
+func verifC18bound(tag string, neg bool, tens int, symbolic bool, units int) (b verifC18boundT) {
 	zeros := 0
 	if !neg {
 		// what zero-padding means for a negative bound is not stated: negatives are drawn unpadded
 		zeros = rt.Choice(tag+"_leading_zeros", rt.Param("zeros")+1)
 	}
-	u := rt.Byte(tag + "_units_digit")
-	rt.Assume(rt.And(u >= '0', u <= '9'))
+	var u byte
+	if symbolic && zeros == 0 {
+		// numeric-array route (rangeToArrayNumber): no digit formatting, stays symbolic
+		u = rt.Byte(tag + "_units_digit_symbolic")
+		rt.Assume(rt.And(u >= '0', u <= '9'))
+	} else {
+		// string route: strconv.Itoa reads a digit table, which forces one path per value anyway;
+		// drawing the digit with rt.Choice gives the same paths without solver work
+		if units < 0 {
+			units = rt.Choice(tag+"_units_digit", 10)
+		}
+		u = byte('0' + units)
+	}
 	v := tens*10 + int(u-'0')
 	b.text = string([]byte{u})
 	if tens > 0 {
@@ -139,23 +150,37 @@ func VerifC18Range() {
 	limit := rt.Param("limit") // |m|, |n| <= limit (a multiple of 10) + 9
 	mNeg := rt.Choice("m_negative", 2) == 1
 	mTens := rt.Choice("m_tens", limit/10+1)
-	m := verifC18bound("m", mNeg, mTens)
+	cmd := rt.Choice("cmd", 2)
 	d := rt.Choice("span", rt.Param("span")+1) // n = m +- d, d <= 9
 	down := rt.Choice("descending", 2) == 1
 	if down && d == 0 {
 		rt.Assume(false) // span 0 is covered by descending=0
 	}
-	// shape of n: with d <= 9 its tens differ by at most one and the sign can only change around 0
-	nNeg := rt.Choice("n_negative", 2) == 1
-	nTens := mTens + rt.Choice("n_tens_offset", 3) - 1
-	if nTens < 0 || nTens > limit/10 || (nNeg != mNeg && (mTens > 0 || nTens > 0)) {
-		rt.Assume(false)
-	}
-	n := verifC18bound("n", nNeg, nTens)
-	if down {
-		rt.Assume(n.val == m.val-d)
+	var m, n verifC18boundT
+	if cmd == 1 && !mNeg && rt.Choice("symbolic_digits", 2) == 1 {
+		// numeric-array route: units digits symbolic, n's shape drawn (its tens differ by at most one)
+		m = verifC18bound("m", false, mTens, true, -1)
+		nTens := mTens + rt.Choice("n_tens_offset", 3) - 1
+		if nTens < 0 || nTens > limit/10 {
+			rt.Assume(false)
+		}
+		n = verifC18bound("n", false, nTens, true, -1)
+		if down {
+			rt.Assume(n.val == m.val-d)
+		} else {
+			rt.Assume(n.val == m.val+d)
+		}
 	} else {
-		rt.Assume(n.val == m.val+d)
+		m = verifC18bound("m", mNeg, mTens, false, -1)
+		nv := m.val + d
+		if down {
+			nv = m.val - d
+		}
+		abs := nv
+		if abs < 0 {
+			abs = -abs
+		}
+		n = verifC18bound("n", nv < 0, abs/10, false, abs%10)
 	}
 	// padding width demanded by the statement: "zero-padded to the width of a zero-padded bound"
 	w := 0
@@ -176,7 +201,7 @@ func VerifC18Range() {
 	var err error
 	var got []string
 	viaInts := false
-	if rt.Choice("cmd", 2) == 0 {
+	if cmd == 0 {
 		p := verifC18proc(expr)
 		err = cmdA(p)
 		rt.Reach("a-returned")
@@ -326,6 +351,25 @@ func VerifC18Odometer() {
 	}
 	lits[nb] = verifC18lit("literal", rt.Choice("literal_len", 2))
 	expr += lits[nb]
+
+	// finding C18-numeric-blocks-flattened (see NOTES.md): nothing but digits in and around the blocks
+	allDigits := true
+	for b := 0; b <= nb; b++ {
+		if len(lits[b]) > 0 {
+			allDigits = false
+		}
+	}
+	known := allDigits
+	if allDigits {
+		for b := 0; b < nb; b++ {
+			for _, e := range vals[b] {
+				for k := 0; k < len(e); k++ {
+					known = rt.And(known, rt.And(e[k] >= '0', e[k] <= '9'))
+				}
+			}
+		}
+	}
+	rt.KnownFinding("C18-numeric-blocks-flattened", known)
 
 	p := verifC18proc("verifc18", expr)
 	err := cmdTa(p)
